@@ -13,7 +13,7 @@
    the code's strconv.Quote / raw writing). *)
 From Coq Require Import String List NArith ZArith Bool.
 From J5V.lib Require Import Outcome Corr.
-From J5V.model Require Import ProtoPrintLit ProtoPrint ProtoLex ProtoLayout ProtoPrintCorr ProtoPrintFile ProtoParseFile ProtoPrintFileWf ProtoPrintFileErase.
+From J5V.model Require Import ProtoPrintLit ProtoPrint ProtoLex ProtoLayout ProtoPrintCorr ProtoPrintFile ProtoParseFile ProtoPrintFileWf ProtoPrintFileErase ProtoPrintFileX.
 Import ListNotations.
 Local Open Scope N_scope.
 Local Open Scope bool_scope.
@@ -101,7 +101,28 @@ Definition dfile_content_eqb (a b : dfile) : bool :=
 (* the second text is the first one (the oracle compares the texts; the harness makes no case otherwise) *)
 (* text: the bytes PrintFile wrote for d; toks: its tokens by the real lexer, with the leading comments the
    re-parsed descriptor attributes to its declarations inserted as pseudo tokens *)
-Inductive c05file := CFile (imp : xsymtab) (d : dfile) (text : list N) (toks : list rtok) (d2 : dfile).
+(* ents / ents2: the options on the fields of the synthetic map entries of the original / the re-parsed real
+   descriptor (model/ProtoPrintFileX.v); lost: the round-trip oracle found map entry options missing after
+   print + parse for this file *)
+Inductive c05file :=
+  CFile (imp : xsymtab) (d : dfile) (ents : list entry_opts) (text : list N) (toks : list rtok)
+        (d2 : dfile) (ents2 : list entry_opts) (lost : bool).
+
+(* json names are plain text (strconv.Quote = quote there); file option strings are typed values written by the
+   model's own literal printer (fopts_typed_b), no longer required to be plain *)
+Definition strings_plain_nf (d : dfile) : bool :=
+  forallb (fun xf => field_strings_plain (snd xf)) (d_exts d) && forallb elem_strings_plain (d_body d).
+
+Definition entry_opts_wf_b (e : entry_opts) : bool :=
+  forallb wf_dopt_b (eo_key e) && forallb wf_dopt_b (eo_value e).
+
+(* the extended descriptor: the table names map fields of the file; the model's verdict "options are lost" is
+   the oracle's; the descriptor protocompile builds from the text has none (parse_file_tokens_x) *)
+Definition entries_check (d : dfile) (ents : list entry_opts) (d2 : dfile) (ents2 : list entry_opts) (lost : bool) : bool :=
+  entries_wf_b {| x_file := d; x_entries := ents |}
+  && forallb entry_opts_wf_b ents
+  && Bool.eqb (loses_entry_options {| x_file := d; x_entries := ents |}) lost
+  && is_nil ents2.
 
 Definition rtok_eqb (a b : rtok) : bool :=
   match a, b with
@@ -120,7 +141,7 @@ Definition lex_agrees (text : list N) (toks : list rtok) : bool :=
 
 Definition c05_file_check (c : c05file) : bool :=
   match c with
-  | CFile imp d text toks d2 =>
+  | CFile imp d ents text toks d2 ents2 lost =>
       match coalesce toks with
       | Some t1 =>
           list_eqb token_eqb (print_file_tokens (to_symtab (dfile_symtab imp d)) d) t1
@@ -130,7 +151,9 @@ Definition c05_file_check (c : c05file) : bool :=
              | None => false
              end
           && wf_dfile_b imp d && wf_dfile_b imp d2
-          && strings_plain d && strings_plain d2
+          && strings_plain_nf d && strings_plain_nf d2
+          && fopts_typed_b d && fopts_typed_b d2
+          && entries_check d ents d2 ents2 lost
           && lex_agrees text toks
           && is_layout (print_file_tokens_nc (to_symtab (dfile_symtab imp d)) d) text
           && is_layout (print_file_tokens_nc (to_symtab (dfile_symtab imp d2)) d2) text
@@ -141,7 +164,7 @@ Definition c05_file_check (c : c05file) : bool :=
 (* which of the three parts fails (for the harness' diagnostics): 0 = ok *)
 Definition c05_file_diag (c : c05file) : N :=
   match c with
-  | CFile imp d text toks d2 =>
+  | CFile imp d ents text toks d2 ents2 lost =>
       match coalesce toks with
       | Some t1 =>
           if negb (list_eqb token_eqb (print_file_tokens (to_symtab (dfile_symtab imp d)) d) t1) then 1
@@ -154,7 +177,9 @@ Definition c05_file_diag (c : c05file) : N :=
                 | None => 4
                 | Some d' => if negb (dfile_content_eqb d' d2) then 5
                              else if negb (wf_dfile_b imp d) then 6 else if negb (wf_dfile_b imp d2) then 7
-                             else if negb (strings_plain d && strings_plain d2) then 8
+                             else if negb (strings_plain_nf d && strings_plain_nf d2) then 8
+                             else if negb (fopts_typed_b d && fopts_typed_b d2) then 13
+                             else if negb (entries_check d ents d2 ents2 lost) then 14
                              else if negb (lex_agrees text toks) then 10
                              else if negb (is_layout (print_file_tokens_nc (to_symtab (dfile_symtab imp d)) d) text) then 11
                              else if negb (is_layout (print_file_tokens_nc (to_symtab (dfile_symtab imp d2)) d2) text) then 12 else 0
@@ -162,4 +187,32 @@ Definition c05_file_diag (c : c05file) : N :=
             end
       | None => 9
       end
+  end.
+
+(* ------------------------------------------------------------------ the two order decisions, pair by pair *)
+(* One case = one ordered pair of elements of one body (or of options of one element) of a printed file and what
+   the real sourceElements.Less / optionsByLocation.Less answered for it (hooks protoprint.VerifElementsLess /
+   VerifOptionsLess).  The element is given by its kind, source line and index; the typeOrder is the model's
+   (ekey on an element of that kind).  Every printed file of a run contributes (no token budget). *)
+Definition order_of_kind (k : N) : N :=
+  let kz := {| k_line := 0; k_idx := 0 |} in
+  match k with
+  | 1 => snd (fst (ekey (DOneof kz no_cmt [] [] [])))
+  | 2 => snd (fst (ekey (DMsg kz no_cmt [] [] [])))
+  | 3 => snd (fst (ekey (DEnum kz no_cmt [] [] [])))
+  | 4 => snd (fst (ekey (DService kz no_cmt [] [] [])))
+  | _ => snd (fst (key0 kz))       (* fields, enum values, methods *)
+  end.
+
+Inductive c05order :=
+| CLess (ka la ia kb lb ib : N) (obs : bool)
+| COptLess (la ia : N) (fa : qname) (lb ib : N) (fb : qname) (obs : bool).
+
+Definition probe_opt (l i : N) (f : qname) : dopt :=
+  {| o_key := {| k_line := l; k_idx := i |}; o_full := f; o_name := {| pn_abs := false; pn_name := f |}; o_val := RMsg [] |}.
+
+Definition c05_order_check (c : c05order) : bool :=
+  match c with
+  | CLess ka la ia kb lb ib obs => Bool.eqb (key_less (la, order_of_kind ka, ia) (lb, order_of_kind kb, ib)) obs
+  | COptLess la ia fa lb ib fb obs => Bool.eqb (opt_less (probe_opt la ia fa) (probe_opt lb ib fb)) obs
   end.
